@@ -59,10 +59,13 @@ type presentation struct {
 	expArg   int64
 	// status histories (timed leg): what the model of the runner's status calls expects
 	// of the final request: "wait" (thinking time first), "now" (suspended: at once), "either"
-	expect  string
-	history []string
-	skip    int // adapter calls made during the history
+	expect     string
+	history    []string
+	skip       int // adapter calls made during the history
+	levelMoved bool
 }
+
+var presentCount int
 
 // statusModel is the runner's public status interface as its names and the threshold
 // setter describe it: Idle() marks a player idle (a second Idle(), or a request that times
@@ -184,9 +187,18 @@ func present(st handState, id string, gi int, status string, actTime int) *prese
 	}
 	view := cloneT(st.Table)
 	view.Meta.ActionTime = actTime
+	levelMoved := ""
+	if presentCount++; presentCount%3 == 0 && view.State.BlindState != nil {
+		// the blind level was raised after this hand opened (UpdateBlind during the hand): the
+		// hand keeps its own antes and blinds
+		b := view.State.BlindState
+		b.Level, b.Ante, b.Dealer, b.SB, b.BB = b.Level+1, b.Ante+7, b.Dealer+3, 2*b.SB+1, 2*b.BB+1
+		levelMoved = " (table level raised during the hand)"
+		p.levelMoved = true
+	}
 	p.tIn = time.Now()
 	p.ad.UpdateTableState(view)
-	p.desc = fmt.Sprintf("%s: player %s (game index %d) status=%s action time=%ds", st.Desc, id, gi, status, actTime)
+	p.desc = fmt.Sprintf("%s: player %s (game index %d) status=%s action time=%ds%s", st.Desc, id, gi, status, actTime, levelMoved)
 	return p
 }
 
@@ -272,6 +284,9 @@ func c19Body(c *run.Ctx) {
 				p := present(st, id, gi, status, 0)
 				if sig, msg := p.judge(true); sig != "" {
 					c.Failf(sig, "%s", msg)
+				}
+				if p.levelMoved && p.expected == "pay" {
+					labels["pay_with_table_level_raised_during_hand"] = true
 				}
 				if p.expected != "" {
 					l := "choice_" + p.expected
